@@ -770,7 +770,19 @@ func c14Eval(c *Ctx, cs Case) {
 		c14ManyEval(c, cs)
 		return
 	}
-	res := c14Worker.Do(ep, map[string]string{"b": hx(b), "reader": cs.S("reader")}, 10*time.Second)
+	args14 := map[string]string{"b": hx(b), "reader": cs.S("reader")}
+	res := c14Worker.Do(ep, args14, 10*time.Second)
+	// a verdict about time is re-measured before it is judged (see c13Eval): the best of up to three runs counts
+	for try := 0; try < 2 && (res.Class == "timeout" || ((res.Class == "ok" || res.Class == "err") && res.Ms > 3000)); try++ {
+		c.Class("decode/" + ep + "/time-verdict-remeasured")
+		r2 := c14Worker.Do(ep, args14, 10*time.Second)
+		if r2.Class == "not-run" {
+			break
+		}
+		if r2.Class != "timeout" && (res.Class == "timeout" || r2.Ms < res.Ms) {
+			res = r2
+		}
+	}
 	if res.Class == "not-run" { // the worker gave up after repeated timeouts, which are reported
 		c.Class("decode/" + ep + "/not-run-after-timeouts")
 		return
